@@ -1023,6 +1023,8 @@ def m4_apply_args(schema: Schema, rep: Report):
             known = PT.simple_conds(cb)
             if PT.implies(cb, PT.atom("$never")) is True:
                 continue  # contradictory conditions: not a feasible path
+            if not PT.feasible(pth, cfg):
+                continue  # e.g. `complaint is None` after `complaint = f"..."` (verdict carried in a local)
             is_agg = [known.get(a) for a in agg]
             in_list = known.get(member[0])
             if (not agg or any(x is not False for x in is_agg)) and in_list is not True:
